@@ -76,6 +76,7 @@ def run(ck):
         # idle / polling programs with BOTH ports in use (port 1 never has an audio callback in the composed machine), queues
         # filled before or after enabling, short periods, slices down to 2..5 cycles
         sfiles += sys_common.record(ck, ck.pick(6, 16), ck.pick(6, 12), tag='sysaud', mode='audio', seedoff=1500)
+        sfiles += sys_common.record(ck, ck.pick(2, 8), ck.pick(4, 10), tag='syslong', mode='long', seedoff=1700)     # periods in the thousands, long runs
         sys_common.validate(ck, sfiles)
     ck.extra_cov['trace_cfg'] = trace_cfg()
     ck.assumptions += ['Btdmp.tla is a faithful reading of the C16 statement and of src/btdmp.md (reviewed by hand)',
